@@ -6,6 +6,7 @@
 import FlooVerif.Model.Compile
 import FlooVerif.Hw
 import FlooVerif.RouteMap
+import FlooVerif.Expect
 namespace FlooVerif.Model
 open FlooVerif
 
@@ -213,7 +214,8 @@ def genSam (d : Desc) (c : Compiled) (off : Option (Int × Int)) : D (List SamRu
   let rules := samRules d c off
   if (rules.any fun r => decide (r.range.stop > (2 : Int) ^ d.addrW)) = true then
     throw (.range "Address range exceeds the address space")
-  else if decide ((rules.map (·.name)).Nodup) = false then throw (.names "Address map entry name is not unique")
+  else if decide ((rules.map fun r => snakeToCamel r.name).Nodup) = false then
+    throw (.names "Address map entry name is not unique")
   else if checkNoOverlap (samAsMap rules) = false then throw (.overlap "Overlapping ranges")
   else pure rules
 
@@ -228,15 +230,21 @@ structure Routed where
   sam : List SamRule
   deriving Inhabited
 
-def genRoutingInfo (sp : PathOracle) (d : Desc) (c : Compiled) : D Routed := do
+/-- the member names of `ep_id_e` as the generator writes them -/
+def epEnumNames (d : Desc) (c : Compiled) : List String :=
+  "NumEndpoints" :: c.nis.map fun ni => snakeToCamel (niEnumSnake d ni)
+
+def genRoutingCore (sp : PathOracle) (d : Desc) (c : Compiled) : D Routed := do
   let N := c.nis.length
-  if N == 0 then throw (.internal "No endpoints found in the network")
   let base : Routed := { c, numEndpoints := N, numIdBits := clog2 N, xy := none, tables := [], routes := [],
                          numRouteBits := 0, sam := [] }
   let r ← match d.algo with
     | .XY => do pure { base with xy := some (← genXyInfo d c) }
     | .ID => do
-      let ts ← c.routers.mapM fun rt => do pure (rt.name, ← genRouterTable sp c rt)
+      let ts ← c.routers.zipIdx.mapM fun (rt, k) => do
+        if ((c.routers.take k).map fun q => snakeToCamel (q.name ++ "_map")).contains (snakeToCamel (rt.name ++ "_map")) then
+          throw (.names "Routers are called the same in the generated code")
+        pure (rt.name, ← genRouterTable sp c rt)
       pure { base with tables := ts }
     | .SRC => do
       let (rs, nb) ← genRoutes sp d c
@@ -244,5 +252,12 @@ def genRoutingInfo (sp : PathOracle) (d : Desc) (c : Compiled) : D Routed := do
     | .YX => throw (.internal "Routing algorithm YX is not supported yet")
   let off := r.xy.map fun x => (x.offX, x.offY)
   pure { r with sam := ← genSam d c off }
+
+def genRoutingInfo (sp : PathOracle) (d : Desc) (c : Compiled) : D Routed :=
+  if c.nis.length == 0 then throw (.internal "No endpoints found in the network")
+  -- the endpoints are enumerated by the CamelCase form of their names
+  else if decide ((epEnumNames d c).Nodup) = false then
+    throw (.names "Endpoints are called the same in the generated code")
+  else genRoutingCore sp d c
 
 end FlooVerif.Model
